@@ -533,4 +533,111 @@ theorem good_of_goodB {h : α → Bool} {rules : List (List α × List α)} (hg 
     exact ⟨⟨h1, h2⟩, h3, fun c hc => by simp [h4 c hc]⟩
   exact ⟨fun e he => (key e he).1, fun e he => (key e he).2, pairwise_of_apartB hg.2⟩
 
+/-! ### a cheap sufficient condition: lead bytes
+
+If every pattern is a *lead* byte followed by non-lead bytes, and the lead byte determines the
+length of the pattern, then distinct patterns can neither start inside nor occur inside one
+another (this is the self-synchronisation of UTF-8, and it also fits the mangled names: `t`
+followed by bytes other than `t`, all of the same length). -/
+
+structure LeadCode (L : α → Prop) (len : α → Nat) (rules : List (List α × List α)) : Prop where
+  shape : ∀ e ∈ rules, ∃ h t, e.1 = h :: t ∧ L h ∧ (∀ c ∈ t, ¬ L c) ∧ e.1.length = len h
+  nodup : (rules.map Prod.fst).Nodup
+
+theorem head_eq_of_compat {h c : α} {t r : List α} (hc : Compat (h :: t) (c :: r)) : h = c := by
+  rcases hc with hc | hc
+  · exact (List.cons_prefix_cons.mp hc).1
+  · exact ((List.cons_prefix_cons.mp hc).1).symm
+
+theorem noStart_of_lead {L : α → Prop} {len : α → Nat} {p q : List α} {h h' : α} {t t' : List α}
+    (hp : p = h :: t) (hL : L h) (hlp : p.length = len h)
+    (hq : q = h' :: t') (hq' : ∀ c ∈ t', ¬ L c) (hlq : q.length = len h') (hne : p ≠ q) :
+    NoStart p q := by
+  intro k hk hc
+  cases k with
+  | zero =>
+    rw [List.drop_zero] at hc
+    have hh : h = h' := by rw [hp, hq] at hc; exact head_eq_of_compat hc
+    have hlen : p.length = q.length := by rw [hlp, hlq, hh]
+    rcases hc with hc | hc
+    · exact hne (hc.eq_of_length hlen)
+    · exact hne (hc.eq_of_length hlen.symm).symm
+  | succ k =>
+    rw [hq] at hk hc
+    simp only [List.length_cons, List.drop_succ_cons] at hk hc
+    have hk' : k < t'.length := by omega
+    have hd : t'.drop k = t'[k] :: t'.drop (k + 1) := (List.drop_eq_getElem_cons hk')
+    rw [hd, hp] at hc
+    have := head_eq_of_compat hc
+    exact hq' _ (List.getElem_mem hk') (this ▸ hL)
+
+theorem apart_of_leadCode {L : α → Prop} {len : α → Nat} {rules : List (List α × List α)}
+    (lc : LeadCode L len rules) :
+    rules.Pairwise (fun a b => NoStart a.1 b.1 ∧ NoStart b.1 a.1) := by
+  have hp : rules.Pairwise (fun a b => a.1 ≠ b.1) := List.pairwise_map.mp lc.nodup
+  refine hp.imp_of_mem ?_
+  intro a b ha hb hne
+  obtain ⟨h, t, e1, hL, ht, hl⟩ := lc.shape a ha
+  obtain ⟨h', t', e1', hL', ht', hl'⟩ := lc.shape b hb
+  exact ⟨noStart_of_lead e1 hL hl e1' ht' hl' hne, noStart_of_lead e1' hL' hl' e1 ht hl (Ne.symm hne)⟩
+
+/-- a pattern that occurs inside another pattern is that pattern -/
+theorem eq_of_infix_of_leadCode {L : α → Prop} {len : α → Nat} {rules : List (List α × List α)}
+    (lc : LeadCode L len rules) : ∀ a ∈ rules, ∀ b ∈ rules, a.1 <:+: b.1 → a.1 = b.1 := by
+  intro a ha b hb hin
+  obtain ⟨h, t, e1, hL, ht, hl⟩ := lc.shape a ha
+  obtain ⟨h', t', e1', hL', ht', hl'⟩ := lc.shape b hb
+  obtain ⟨u, v, e⟩ := hin
+  -- the occurrence starts at the lead byte of `b`
+  cases u with
+  | nil =>
+    have hpre : a.1 <+: b.1 := ⟨v, by simpa using e⟩
+    have hh : h = h' := by
+      rw [e1, e1'] at hpre; exact (List.cons_prefix_cons.mp hpre).1
+    exact hpre.eq_of_length (by rw [hl, hl', hh])
+  | cons c u =>
+    exfalso
+    rw [e1, e1'] at e
+    simp only [List.cons_append, List.cons.injEq] at e
+    have : h ∈ t' := by rw [← e.2]; simp
+    exact ht' h this hL
+
+/-- `LeadCode`, computed -/
+def leadB (L : α → Bool) (len : α → Nat) (rules : List (List α × List α)) : Bool :=
+  rules.all fun e =>
+    match e.1 with
+    | [] => false
+    | h :: t => L h && t.all (fun c => !L c) && decide (e.1.length = len h)
+
+theorem leadCode_of_leadB {L : α → Bool} {len : α → Nat} {rules : List (List α × List α)}
+    (h : leadB L len rules = true) (hnd : (rules.map Prod.fst).Nodup) :
+    LeadCode (fun c => L c = true) len rules := by
+  refine ⟨?_, hnd⟩
+  intro e he
+  unfold leadB at h
+  have := List.all_eq_true.mp h e he
+  cases h1 : e.1 with
+  | nil => rw [h1] at this; cases this
+  | cons h0 t =>
+    simp only [h1] at this
+    simp only [Bool.and_eq_true, List.all_eq_true, Bool.not_eq_true', decide_eq_true_iff] at this
+    exact ⟨h0, t, rfl, this.1.1, fun c hc => by simp [this.1.2 c hc], this.2⟩
+
+/-- bytes of patterns in `H`, replacements non-empty and outside `H`, computed -/
+def classesB (h : α → Bool) (rules : List (List α × List α)) : Bool :=
+  rules.all fun e => !e.1.isEmpty && e.1.all h && !e.2.isEmpty && e.2.all (fun c => !h c)
+
+theorem good_of_checks {h L : α → Bool} {len : α → Nat} {rules : List (List α × List α)}
+    (hc : classesB h rules = true) (hl : leadB L len rules = true)
+    (hnd : (rules.map Prod.fst).Nodup) : Good (fun c => h c = true) rules := by
+  unfold classesB at hc
+  have key : ∀ e ∈ rules, (e.1 ≠ [] ∧ ∀ c ∈ e.1, h c = true) ∧ (e.2 ≠ [] ∧ ∀ c ∈ e.2, ¬ h c = true) := by
+    intro e he
+    have := List.all_eq_true.mp hc e he
+    simp only [Bool.and_eq_true, Bool.not_eq_true', List.isEmpty_eq_false_iff, List.all_eq_true] at this
+    obtain ⟨⟨⟨h1, h2⟩, h3⟩, h4⟩ := this
+    exact ⟨⟨h1, h2⟩, h3, fun c hc => by simp [h4 c hc]⟩
+  exact ⟨fun e he => (key e he).1, fun e he => (key e he).2,
+    apart_of_leadCode (leadCode_of_leadB hl hnd)⟩
+
 end TfelVerif.C33
